@@ -16,3 +16,8 @@ Definition int_literal (s : str) : Prop :=
 
 (* characters a predicate part is made of *)
 Definition all_in_set (cs : cset) (w : str) : Prop := Forall (fun c => cmem c cs = true) w.
+
+(* one comparison of a predicate string, as text:  lead op mid version trail *)
+Record cmp_text := { c_lead : str; c_op : str; c_mid : str; c_ver : str; c_trail : str }.
+Definition render_cmp (c : cmp_text) : str := c_lead c ++ c_op c ++ c_mid c ++ c_ver c ++ c_trail c.
+Definition comma : N := 44.
